@@ -1,5 +1,6 @@
 import CppUModel.Base.Proto
 import CppUModel.Model.SeparateProcess
+import CppUModel.Model.SeparateProcessArgv
 import CppUModel.Spec.SeparateProcess
 /-!
 Driver for C11: replays the harness traces through the separate-process model and judges the
@@ -49,10 +50,29 @@ def parseActions : List String → Option (List (String × Nat))
   | _ => none
 
 def validCliArg (a : String) : Bool :=
-  ["-p", "-c", "-v", "-vv", "-ojunit", "-oteamcity", "-r1", "-b", "-ri", "-gg", "-nt", "-xgZZZ", "-xnZZZ"].contains a ||
+  ["-p", "-c", "-v", "-vv", "-ojunit", "-oteamcity", "-r1", "-b", "-ri", "-gg", "-nt", "-xgZZZ", "-xnZZZ",
+   "-r", "-r2", "-r3", "-s", "1", "2", "3"].contains a ||
   (match a.toList with
    | '-' :: 's' :: d :: rest => '1' ≤ d && d ≤ '9' && rest.length ≤ 4 && rest.all Char.isDigit
    | _ => false)
+
+/-- a count / seed as an argument of its own is accepted only directly after a bare `-r` / `-s` -/
+def cliNumbersPlaced : Option String → List String → Bool
+  | _, [] => true
+  | prev, a :: rest =>
+    (!(["1", "2", "3"].contains a) || prev == some "-r" || prev == some "-s") && cliNumbersPlaced (some a) rest
+
+/-- the argument vector as the parser model reads it (`CommandLine.parse`, property C12's model, read-only) -/
+def argvConfig (args : List String) : CommandLine.Config := parsedConfig (args.map (fun a => a.toUTF8.toList))
+
+/-- the model's reading of the argument vector, written back as switches: everything the model computes for a
+    command-line run goes through the parsed configuration, never through the raw words -/
+def canonicalArgs (args : List String) : List String :=
+  let c := argvConfig args
+  (if c.separateProcess then ["-p"] else []) ++ (if c.runIgnored then ["-ri"] else []) ++
+  (if c.reversing then ["-b"] else []) ++ (if c.shuffling then ["-s1"] else []) ++
+  (if c.verbose then ["-v"] else []) ++ (if c.veryVerbose then ["-vv"] else []) ++ (if c.color then ["-c"] else []) ++
+  (if c.output == .junit then ["-ojunit"] else if c.output == .teamcity then ["-oteamcity"] else [])
 
 /-- the switches `initializeTestRun` looks at -/
 def cliSwitches (args : List String) : CliArgs :=
@@ -113,7 +133,8 @@ def applyOp (d : DState) (op : List String) : Option DState :=
         some { d with tests := d.tests.modify t (fun s => { s with tick := us }) } else none
     | _, _ => none
   | "cli" :: args =>
-    if !d.tests.isEmpty && !d.cli && args.length ≤ 10 && args.all validCliArg && (args.isEmpty || args.contains "-p") then
+    if !d.tests.isEmpty && !d.cli && args.length ≤ 10 && args.all validCliArg && cliNumbersPlaced none args &&
+       (args.isEmpty || args.contains "-p") then
       some { d with cli := true, cliArgs := if args.isEmpty then ["-p"] else args }
     else none
   | ["nofork"] => if d.tests.isEmpty then some { d with nofork := true } else none
@@ -315,8 +336,18 @@ def notRunIn (d : DState) (t : Nat) : Bool := (d.tests[t]!).ign && !runIgnoredIn
 def notRunLines (t : Nat) (s : TSpec) : List String :=
   [s!"started {t}"] ++ (if s.real then [] else [s!"consumed {t} 0", s!"conts {t} 0"]) ++ [s!"ended {t}"]
 
+/-- what the model says about one repetition of the run -/
+structure RoundOut where
+  per        : List String := []
+  started    : Nat := 0
+  runCount   : Nat := 0
+  failures   : Nat := 0
+  overall    : Bool := false
+  failedExec : Bool := false               -- `tr.isFailure()` of this repetition
+  texts      : List (Nat × Nat) := []      -- cli: (test, failure texts its child prints)
+
 /-- the fork-less build: every test gets the platform's one failure, nothing is forked -/
-def modelRunNoFork (d : DState) (ro : RunObs) : List String :=
+def modelRoundNoFork (d : DState) (ro : RunObs) : RoundOut :=
   let n := d.tests.size
   let order := runOrder d ro
   let scripts : List TestScript := (List.range n).map (fun _ => { forkOk := true, outs := [] })
@@ -326,15 +357,13 @@ def modelRunNoFork (d : DState) (ro : RunObs) : List String :=
     let s := d.tests[t]!
     [s!"started {t}"] ++ (if s.real then [] else [s!"consumed {t} 0", s!"conts {t} 0"]) ++
     ((st.failures.filter (·.1 == p)).map (fun f => s!"fail {t} {hexOfString f.2.text}")) ++ [s!"ended {t}"])
-  per ++ [s!"runcount {st.runCount}", s!"failures {st.failureCount}",
-          "overall " ++ (if st.overallFailure then "fail" else "ok")] ++
-         (if d.cli then [s!"exitcode {st.exitCode}"] else []) ++
-         ["summary " ++ (if st.overallFailure then "errors" else "ok")]
+  { per := per, started := st.runCount, runCount := st.runCount, failures := st.failureCount,
+    overall := st.overallFailure, failedExec := st.exitCode != 0 }
 
-def modelRun (d : DState) (obs : List (List String)) : List String :=
+def modelRound (d : DState) (obs : List (List String)) : RoundOut :=
   let n := d.tests.size
   let ro := readObs n obs
-  if d.nofork then modelRunNoFork d ro else
+  if d.nofork then modelRoundNoFork d ro else
   let order := runOrder d ro
   let regs : List KTest := order.map (fun t =>
     { kind := if (d.tests[t]!).ign then .ignored else .normal,
@@ -346,17 +375,53 @@ def modelRun (d : DState) (obs : List (List String)) : List String :=
     if st.inRunner.contains p then inRunnerLines t (d.tests[t]!)
     else if notRunIn d t then notRunLines t (d.tests[t]!)
     else modelTestLines t ((st.failures.filter (·.1 < p)).length) (d.tests[t]!) (ro.per[t]!))
-  let cliLines := if d.cli then [s!"exitcode {st.exitCode}"] else []
   let texts := if d.cli then
       (List.range n).filterMap (fun t =>
         let s := d.tests[t]!
-        if s.real && s.inject == 0 && !s.forkFails && (ro.per[t]!).forked != ["realfail"] then
-          some s!"childtext {t} {if cliJUnitOnly d.cliArgs || notRunIn d t then 0 else childTexts s.phase s.actions}" else none)
+        if s.real && s.inject == 0 && !s.forkFails then
+          some (t, if (ro.per[t]!).forked == ["realfail"] then 0
+                   else if cliJUnitOnly d.cliArgs || notRunIn d t then 0 else childTexts s.phase s.actions) else none)
     else []
   -- API mode prints `TestResult::getRunCount()`, cli mode the number of tests the output saw starting
-  per ++ [s!"runcount {if d.cli then st.started.length else st.runCount}", s!"failures {st.failureCount}",
-          "overall " ++ (if st.overallFailure then "fail" else "ok")] ++ cliLines ++
-         ["summary " ++ (if st.overallFailure then "errors" else "ok")] ++ texts
+  { per := per, started := st.started.length, runCount := st.runCount, failures := st.failureCount,
+    overall := st.overallFailure, failedExec := st.exitCode != 0, texts := texts }
+
+/-- the observation lines of the repetitions: the first one's, then what follows each `round K` line -/
+def splitRoundsGo : List (List String) → List (List (List String)) → List (List String) → List (List (List String))
+  | cur, acc, [] => acc ++ [cur]
+  | cur, acc, l :: rest =>
+    if l.head? == some "round" then splitRoundsGo [] (acc ++ [cur]) rest
+    else splitRoundsGo (cur ++ [l]) acc rest
+
+def splitRounds (obs : List (List String)) : List (List (List String)) := splitRoundsGo [] [] obs
+
+/-- `CommandLineTestRunner::runAllTests`: the parsed repeat count says how often the registry is run (each
+    repetition after the first announced by the harness as `round K`); counts add up, the exit code is
+    `failedTestCount != 0 ? failedTestCount : failedExecutionCount` -/
+def modelRun (d0 : DState) (obs : List (List String)) : List String :=
+  -- a command-line run is driven by the PARSED argument vector
+  let d := if d0.cli then { d0 with cliArgs := canonicalArgs d0.cliArgs } else d0
+  let reps := if d0.cli then (argvConfig d0.cliArgs).repeatCount else 1
+  let segs := if reps ≤ 1 then [obs] else (List.range reps).map (fun k => (splitRounds obs).getD k [])
+  let outs := segs.map (modelRound d)
+  let per := if reps ≤ 1 then (outs.flatMap (·.per))
+             else (List.range reps).flatMap (fun k => (if k == 0 then [] else [s!"round {k + 1}"]) ++ ((outs.getD k {}).per))
+  let started := (outs.map (·.started)).sum
+  let runCount := (outs.map (·.runCount)).sum
+  let failures := (outs.map (·.failures)).sum
+  let errs := outs.any (·.overall)
+  let oks := outs.any (fun o => !o.overall)
+  let exitCode := exitCodeOfRounds (outs.map (fun o => (o.failures, o.failedExec)))
+  let summary := if errs && oks then (if d.cli && cliJUnitOnly d.cliArgs then "errors" else "unclear")
+                 else if errs then "errors" else "ok"
+  let lastTexts := (outs.getLast?.map (·.texts)).getD []
+  let realFailLast (t : Nat) : Bool := ((readObs d.tests.size (segs.getLast?.getD [])).per[t]!).forked == ["realfail"]
+  let texts := (lastTexts.filter (fun (t, _) => !realFailLast t)).map (fun (t, _) =>
+    s!"childtext {t} {(outs.map (fun o => ((o.texts.find? (·.1 == t)).map (·.2)).getD 0)).sum}")
+  per ++ [s!"runcount {if d.cli then started else runCount}", s!"failures {failures}",
+          "overall " ++ (if errs then "fail" else "ok")] ++
+         (if d.cli then [s!"exitcode {exitCode}"] else []) ++
+         ["summary " ++ summary] ++ (if d.nofork then [] else texts)
 
 def modelStep (d : DState) (op : List String) (obs : List (List String)) : DState × List String :=
   match op with
@@ -558,8 +623,8 @@ def specTest (t : Nat) (s : TSpec) (o : TObs) : Except String Unit := do
       if nstop != nstopFail then throw s!"test {t}: {nstop} stops reported by waitpid but {nstopFail} stop failures recorded"
 
 /-- build without fork: `-p` must be reported as not working, once per test, and every test is
-    still started; nothing may be forked -/
-def specRunNoFork (d : DState) (ro : RunObs) : Except String Unit := do
+    still started; nothing may be forked (one repetition) -/
+def specRoundNoFork (d : DState) (ro : RunObs) : Except String Nat := do
   let n := d.tests.size
   if ro.order != runOrder d ro then throw s!"tests started {ro.order}, expected {runOrder d ro}"
   for t in List.range n do
@@ -569,18 +634,14 @@ def specRunNoFork (d : DState) (ro : RunObs) : Except String Unit := do
     match o.fails with
     | [m] => if !(contains m "doesn't work on this platform") then throw s!"test {t}: unexpected failure {m}"
     | fs => throw s!"test {t}: expected exactly one 'no fork on this platform' failure, got {fs}"
-  if ro.runcount != some n || ro.failures != some n then throw s!"run count {ro.runcount} / failures {ro.failures} for {n} tests"
-  if ro.overall != "fail" || ro.summary != "errors" then throw s!"overall result {ro.overall}/{ro.summary}"
+  return n
 
-def specRun (d : DState) (obs : List (List String)) : Except String Unit := do
+/-- one repetition of the run: every test of the registry started, in order, none inside the runner, each one's
+    failures exactly its death events; returns the number of failures recorded in it -/
+def specRound (d : DState) (ro : RunObs) : Except String Nat := do
   let n := d.tests.size
-  let ro := readObs n obs
-  if ro.crash then throw "the implementation crashed or hung"
-  if ro.deadline then throw "the parent did not finish within the deadline (hanging wait)"
-  if !ro.bad.isEmpty then throw s!"unexpected observation: {ro.bad.head!}"
   if d.nofork then
-    specRunNoFork d ro
-    return
+    return (← specRoundNoFork d ro)
   for t in List.range n do
     if (ro.per[t]!).inrunner then
       throw s!"test {t} was executed inside the runner process although separate-process mode was requested (not forked)"
@@ -595,10 +656,39 @@ def specRun (d : DState) (obs : List (List String)) : Except String Unit := do
     specTest t (d.tests[t]!) (ro.per[t]!)
     if d.nproc0 && (d.tests[t]!).real && !(d.tests[t]!).forkFails && (ro.per[t]!).forked != ["realfail"] then
       throw s!"test {t}: this process cannot fork (RLIMIT_NPROC 0) but the real fork seam reported no failure"
-  let total := (List.range n).foldl (fun acc t => acc + (ro.per[t]!).fails.length) 0
+  return (List.range n).foldl (fun acc t => acc + (ro.per[t]!).fails.length) 0
+
+/-- the `round K` lines: the repetitions of the run after the first -/
+def roundsAnnounced (obs : List (List String)) : List (Option Nat) :=
+  obs.filterMap (fun l => match l with
+    | ["round", k] => some k.toNat?
+    | "round" :: _ => some none
+    | _ => none)
+
+/-- The command line asked for separate-process mode when `-p` is among the arguments as an argument of its own
+    (the harness only gives arguments none of which takes a following `-p` as its value: an optional count after
+    `-r` / seed after `-s` is a number).  How often the run is repeated is not the property's business: the
+    repetitions are taken as the runner made them (`round K` = the registry was started for the K-th time), but every
+    repetition must be run to its end, with every test contained in every one of them. -/
+def specRun (d : DState) (obs : List (List String)) : Except String Unit := do
+  let n := d.tests.size
+  let ro := readObs n obs
+  if ro.crash then throw "the implementation crashed or hung"
+  if ro.deadline then throw "the parent did not finish within the deadline (hanging wait)"
+  if !ro.bad.isEmpty then throw s!"unexpected observation: {ro.bad.head!}"
+  let ann := roundsAnnounced obs
+  let reps := ann.length + 1
+  if !ann.isEmpty then
+    if !d.cli then throw "the registry was run more than once although the run did not go through the command-line runner"
+    if ann != (List.range ann.length).map (fun k => some (k + 2)) then
+      throw s!"unexpected observation: repetitions {ann}"
+  let segs := splitRounds obs
+  let mut total := 0
+  for seg in segs do
+    total := total + (← specRound d (readObs n seg))
   let notRun := ((List.range n).filter (notRunIn d)).length
-  let expectedRuns := if d.cli then n else n - notRun
-  if ro.runcount != some expectedRuns then throw s!"run count {ro.runcount} for {n} tests ({notRun} ignored)"
+  let expectedRuns := reps * (if d.cli || d.nofork then n else n - notRun)
+  if ro.runcount != some expectedRuns then throw s!"run count {ro.runcount} for {n} tests ({notRun} ignored, {reps} repetitions)"
   if ro.failures != some total then throw s!"failure count {ro.failures} but {total} failures were recorded"
   if total > 0 && (ro.overall != "fail" || ro.summary != "errors") then
     throw s!"{total} failures but the overall result is {ro.overall}/{ro.summary}"
